@@ -21,9 +21,15 @@ ANIM = "src/food_system/animal_populations.py"
 
 
 def run(index, rep):
+    rep.guard(state7, index, rep)
     rep.guard(feed_species, index, rep)
     rep.guard(starve, index, rep)
     rep.guard(prio, index, rep)
+
+
+def state7(index, rep):
+    from .memo import hidden_state_rules
+    hidden_state_rules(index, rep, "C07.STATE", [ANIM], "the requirement, efficiency and herd size used when feeding a species")
 
 
 def facts_from(it, dec):
